@@ -82,8 +82,8 @@ def merge( ranges, reach=1, limit=None ):
             if ( address // 10000 == base // 10000
                  and address < base + length + ( reach or 1 )):
                 log.debug( "Merging:  %10r + %10r == %r" % (
-                        (base,length), (address,count), (base,address+count-base)))
-                length	= address + count - base
+                        (base,length), (address,count), (base,max(length,address+count-base))))
+                length	= max( length, address + count - base )
                 continue
             log.debug( "Unmerged: %10r + %10r w/reach %r" % (
                     (base,length), (address,count), reach))
